@@ -64,10 +64,10 @@ def run_case(case):
     res = {"counters": {}, "maxima": {}, "violations": [], "features": {}, "nontrivial": False}
     cnt = res["counters"]
     N = case["agents"]
-    init = gen.gen_initial_states(rng, ref, N)
+    init = gen.gen_initial_states(rng, ref, N, int_cont=0.5 if case["index"] % 2 else 0.0)
     # unique initial states where possible (agent identity)
     for s in ref.cont_states:
-        if ref.spec[s]["kind"] == "lin":
+        if ref.spec[s]["kind"] == "lin" and np.issubdtype(np.asarray(init[s]).dtype, np.floating):
             g = ref.grid[s]
             init[s] = np.sort(rng.uniform(g[0], g[-1], N))[rng.permutation(N)]
             break
